@@ -57,7 +57,7 @@ Definition vocabulary (ty : json) : Prop :=
   exists s, ty = JStr s /\ s <> [] /\ str_mem (map lower_char s) TABLE_TYPES = true.
 
 (* ------------------------------------------------------------------ dates *)
-(* _valid_date, table_validator.py:432-452: datetime.strptime with four formats.  Fields are
+(* _valid_date: datetime.strptime with six formats (the last two with a UTC offset, F47).  Fields are
    the digit groups of _strptime's regular expressions, then datetime's range checks.  ASCII
    digits only (see docs/C15.md). *)
 Definition is_digit (c : Z) : bool := (48 <=? c) && (c <=? 57).
@@ -99,6 +99,71 @@ Definition ymd_ok (y m d : str) : bool :=
   end.
 Definition is_some {A} (o : option A) : bool := match o with Some _ => true | None => false end.
 
+(* the text a %z directive accepts (CPython 3.12 _strptime): Z, or a sign, two digits of hours,
+   an optional colon, minutes 00-59, and optionally seconds 00-59 (after a colon iff the minutes
+   came after one) with an optional fraction of 1-6 digits; the offset has to stay below 24 h *)
+Definition two_digits (a b : Z) (hi : Z) : bool :=
+  is_digit a && is_digit b && ((a - 48) * 10 + (b - 48) <=? hi).
+Definition tz_frac (r : str) : bool :=
+  match r with
+  | [] => true
+  | c :: f => (c =? 46) && fld_micro f
+  end.
+Definition tz_ok (z : str) : bool :=
+  match z with
+  | [c] => c =? 90
+  | sg :: h1 :: h2 :: rest =>
+      ((sg =? 43) || (sg =? 45)) && two_digits h1 h2 23 &&
+      match rest with
+      | c :: m1 :: m2 :: rest2 =>
+          if c =? 58 then
+            two_digits m1 m2 59 &&
+            match rest2 with
+            | [] => true
+            | c2 :: s1 :: s2 :: rest3 => (c2 =? 58) && two_digits s1 s2 59 && tz_frac rest3
+            | _ => false
+            end
+          else
+            two_digits c m1 59 &&
+            match m2 :: rest2 with
+            | s1 :: s2 :: rest3 => two_digits s1 s2 59 && tz_frac rest3
+            | _ => false
+            end
+      | [m1; m2] => two_digits m1 m2 59
+      | _ => false
+      end
+  | _ => false
+  end.
+
+(* cut before the first sign or Z: the seconds (or the fraction) and the offset *)
+Fixpoint break_at_tz (s : str) : option (str * str) :=
+  match s with
+  | [] => None
+  | c :: t => if (c =? 43) || (c =? 45) || (c =? 90) then Some ([], s)
+              else match break_at_tz t with Some (a, b) => Some (c :: a, b) | None => None end
+  end.
+
+(* the text after the minutes' colon: %S, %S.%f, %S%z, %S.%f%z *)
+Definition seconds_ok (r5 : str) : bool :=
+  is_some (fld_second r5)
+  || match split_on [46] r5 with
+     | None => false
+     | Some (sec, f) => is_some (fld_second sec) && fld_micro f
+     end
+  || match break_at_tz r5 with
+     | None => false
+     | Some (sec, z) => is_some (fld_second sec) && tz_ok z
+     end
+  || match split_on [46] r5 with
+     | None => false
+     | Some (sec, fz) =>
+         is_some (fld_second sec) &&
+         match break_at_tz fz with
+         | None => false
+         | Some (f, z) => fld_micro f && tz_ok z
+         end
+     end.
+
 Definition date_ok (s : str) : bool :=
   match split_on [45] s with
   | None => false
@@ -120,14 +185,7 @@ Definition date_ok (s : str) : bool :=
                    is_some (fld_minute r4) ||
                    match split_on [58] r4 with
                    | None => false
-                   | Some (mi, r5) =>
-                       is_some (fld_minute mi) &&
-                       ((* ...:%S *)
-                        is_some (fld_second r5) ||
-                        match split_on [46] r5 with
-                        | None => false
-                        | Some (sec, f) => is_some (fld_second sec) && fld_micro f
-                        end)
+                   | Some (mi, r5) => is_some (fld_minute mi) && seconds_ok r5
                    end)
               end
           end
